@@ -132,10 +132,21 @@ func seqScenario(min, max uint16, nthreads, ncalls int) c29sc {
 
 func storeScenario(name string, progs [][]storeIn) c29sc { return storeScenarioX(name, false, progs) }
 
+// c29idKey: the message id all by-id operations of a store scenario use.  The "mixed" scenarios also run with ids
+// that a packet type could be mistaken for (the type's number itself and the number shifted by one octet): the two
+// key spaces must not meet wherever the implementation keeps them.
+func storeScenarioKey(name string, key uint16, progs [][]storeIn) c29sc {
+	return storeScenarioXK(name, false, key, progs)
+}
+
 // live: the stored transactions behave like the project's: when one finishes it removes itself from the store by
 // its key (its own atomic map operation, recorded as such in the history).  Storing over a live transaction must
 // still return (the store may finish the transaction it replaces) and every single operation stays atomic.
 func storeScenarioX(name string, live bool, progs [][]storeIn) c29sc {
+	return storeScenarioXK(name, live, 7, progs)
+}
+
+func storeScenarioXK(name string, live bool, c29idKey uint16, progs [][]storeIn) c29sc {
 	return c29sc{
 		name:  "store:" + name,
 		model: storeModel(),
@@ -147,7 +158,7 @@ func storeScenarioX(name string, live bool, progs [][]storeIn) c29sc {
 					// a real (finished-able) transaction: storing over an unfinished one may finish it
 					finally := func() {}
 					if live {
-						finally = func() { h.call(100+id, storeIn{op: "delete"}, func() any { ts.Delete(7); return storeOut{} }) }
+						finally = func() { h.call(100+id, storeIn{op: "delete"}, func() any { ts.Delete(c29idKey); return storeOut{} }) }
 					}
 					txs[id] = &dummyTx{Transaction: transactions.NewTransactionBase(finally), id: id}
 				}
@@ -166,15 +177,15 @@ func storeScenarioX(name string, live bool, progs [][]storeIn) c29sc {
 						h.call(i, in, func() any {
 							switch in.op {
 							case "store":
-								ts.Store(7, txs[in.value])
+								ts.Store(c29idKey, txs[in.value])
 							case "storeT":
 								ts.StoreByType(pkts.CONNECT, txs[in.value])
 							case "delete":
-								ts.Delete(7)
+								ts.Delete(c29idKey)
 							case "deleteT":
 								ts.DeleteByType(pkts.CONNECT)
 							case "get":
-								v, ok := ts.Get(7)
+								v, ok := ts.Get(c29idKey)
 								if ok {
 									return storeOut{v.(*dummyTx).id, true}
 								}
@@ -255,6 +266,8 @@ func c29Scenarios() []c29sc {
 		storeScenario("type:store,get|store,delete|get,get", [][]storeIn{{S("storeT", 1), S("getT", 0)}, {S("storeT", 2), S("deleteT", 0)}, {S("getT", 0), S("getT", 0)}}),
 		storeScenario("mixed:store,getT|storeT,get|delete,deleteT", [][]storeIn{{S("store", 1), S("getT", 0)}, {S("storeT", 2), S("get", 0)}, {S("delete", 0), S("deleteT", 0)}}),
 		storeScenario("id:store,store|get,delete|get,store", [][]storeIn{{S("store", 1), S("store", 3)}, {S("get", 0), S("delete", 0)}, {S("get", 0), S("store", 2)}}),
+		storeScenarioKey(fmt.Sprintf("mixed, message id %d = the number of CONNECT:store,getT|storeT,get|delete,deleteT", uint16(pkts.CONNECT)), uint16(pkts.CONNECT), [][]storeIn{{S("store", 1), S("getT", 0)}, {S("storeT", 2), S("get", 0)}, {S("delete", 0), S("deleteT", 0)}}),
+		storeScenarioKey(fmt.Sprintf("mixed, message id %d = CONNECT shifted by one octet:store,getT|storeT,get|delete,deleteT", uint16(pkts.CONNECT)<<8), uint16(pkts.CONNECT)<<8, [][]storeIn{{S("store", 1), S("getT", 0)}, {S("storeT", 2), S("get", 0)}, {S("delete", 0), S("deleteT", 0)}}),
 		storeScenarioX("live:store,store|get,get|store,get", true, [][]storeIn{{S("store", 1), S("store", 3)}, {S("get", 0), S("get", 0)}, {S("store", 2), S("get", 0)}}),
 		stateScenario(),
 	)
